@@ -213,6 +213,26 @@ FAMILIES = {
     "fence_pairs": (rep("```\na\n```\n"), ["fence"], []),
     "link_titles_unclosed": (rep("[a](b \"c"), ["link", "parseLinkTitle"], []),
     "link_paren_dest": (lambda n: "[a](" + "(" * n + ")" * n + ")", ["link", "parseLinkDestination"], []),
+    # block-level continuation/termination shapes: every line is re-examined by the rules of an enclosing or preceding block
+    "quote_blank_then_text": (rep("> a\n>  \nfoo\n"), ["blockquote"], []),
+    "quote_empty_then_text": (rep("> a\n>\nfoo\n"), ["blockquote"], []),
+    "quote_heading_then_text": (rep("> # a\nfoo\n"), ["blockquote"], []),
+    "quote_fence_then_text": (rep("> ```\nfoo\n"), ["blockquote"], []),
+    "quote_code_then_text": (rep(">     c\nfoo\n"), ["blockquote"], []),
+    "quote_hr_then_text": (rep("> ---\nfoo\n"), ["blockquote"], []),
+    "list_heading_then_text": (rep("- # a\nfoo\n"), ["list_block"], []),
+    "para_lone_tags": (lambda n: "a\n" + "<x>\n" * n, ["html_block", "paragraph"], []),
+    "lazy_quote_lone_tags": (lambda n: "> a\n" + "</x>\n" * n, ["html_block", "blockquote"], []),
+    "para_lone_tags_attr": (lambda n: "a\n" + "<a href=\"u\">\n" * n, ["html_block", "paragraph"], []),
+    "table_then_lone_tags": (lambda n: "|a|\n|-|\n" + "<x>\n" * n, ["html_block", "table"], ["table"]),
+    "refdef_then_lines": (lambda n: "[r]: /u\n" + "x\n" * n, ["reference", "paragraph"], []),
+    "squote_open_dquote_close": (lambda n: "'a " * n + "b\" " * n, ["process_inlines", "smartquotes"], ["typographer"]),
+    "dquote_open_only": (rep("\"a "), ["process_inlines", "smartquotes"], ["typographer"]),
+    "squote_close_only": (rep("a' "), ["process_inlines", "smartquotes"], ["typographer"]),
+    "mixed_quotes_unbalanced": (rep("'a \"b "), ["process_inlines", "smartquotes"], ["typographer"]),
+    "emph_deep_link": (lambda n: "*a **b " * n + "[l](u) <http://x.y> `c` ![i](s)" + " b** a*" * n, ["tokenize"], []),
+    "strike_deep_link": (lambda n: "~~a *b " * n + "[l](u)" + " b* a~~" * n, ["tokenize"], ["strikethrough"]),
+    "link_autolink_emph": (rep("[*x <http://a.b>](u) y* "), ["link"], []),
     "quote_list_alternate": (lambda n: "> - " * n + "a\n", ["blockquote", "list_block"], []),
     "smart_quotes": (rep("\"a\" 'b' "), ["process_inlines", "smartquotes"], ["typographer"]),
     "replacements": (rep("(c) -- ... +- "), ["replace", "replace_rare", "replace_scoped"], ["typographer"]),
